@@ -311,6 +311,49 @@ def Mgr.unlock (A : AEAD) (K : KDF) (m : Mgr) (pass : Bytes) : Mgr × Except Mgr
       | .error e => (m1.lock, .error (.crypto e))
       | .ok k => ({ m1 with cryptoKeyPriv := k, locked := false, privPass := some pass }, .ok ())
 
+/-- the randomness `ChangePassphrase` consumes (salt of the new master key, nonces of the re-encryptions). -/
+structure ChangeRand where
+  salt : Bytes
+  n1 : Bytes
+  n2 : Bytes
+
+/-- `Manager.ChangePassphrase(ns, old, new, private, config)` (key part): returns the new in-memory manager, the new
+on-disk record and the error. The old passphrase is verified on a *copy* of the master key parameters
+(`DeriveKey`), a new master key is made from the new passphrase, the crypto keys are re-encrypted under it. When the
+private passphrase is changed while unlocked the cached passphrase hash is recomputed from the NEW passphrase; when
+locked the new clear-text master key is zeroed. -/
+def Mgr.changePassphrase (A : AEAD) (K : KDF) (m : Mgr) (d : MgrDisk) (r : ChangeRand) (oldPass newPass : Bytes)
+    (priv : Bool) (N R P : Int) : Mgr × MgrDisk × Except MgrErr Unit :=
+  if priv && m.watchOnly then (m, d, .error .watchingOnly)
+  else
+    let sk0 : SecretKey := { key := zeroKey, params := if priv then m.masterKeyPriv.params else m.masterKeyPub.params }
+    match sk0.deriveKey K oldPass with
+    | (_, .error .invalidPassword) => (m, d, .error .wrongPassphrase)
+    | (_, .error e) => (m, d, .error (.crypto e))
+    | (secretKey, .ok ()) =>
+      match newSecretKey K r.salt newPass N R P with
+      | .error e => (m, d, .error (.crypto e))
+      | .ok newMaster =>
+        if priv then
+          match secretKey.decrypt A m.cryptoKeyPrivEncrypted with
+          | .error e => (m, d, .error (.crypto e))
+          | .ok decPriv =>
+            let encPriv := newMaster.encryptWith A r.n1 decPriv
+            match secretKey.decrypt A m.cryptoKeyScriptEncrypted with
+            | .error e => (m, d, .error (.crypto e))
+            | .ok decScript =>
+              let encScript := newMaster.encryptWith A r.n2 decScript
+              let m' : Mgr := { m with
+                cryptoKeyPrivEncrypted := encPriv, cryptoKeyScriptEncrypted := encScript,
+                masterKeyPriv := if m.locked then newMaster.zero else newMaster,
+                privPass := if m.locked then none else some newPass }
+              let d' : MgrDisk := { d with masterPrivParams := newMaster.marshal, cryptoKeyPrivEnc := encPriv,
+                                           cryptoKeyScriptEnc := encScript }
+              (m', d', .ok ())
+        else
+          let encPub := newMaster.encryptWith A r.n1 m.cryptoKeyPub
+          ({ m with masterKeyPub := newMaster }, { d with masterPubParams := newMaster.marshal, cryptoKeyPubEnc := encPub }, .ok ())
+
 /-- `selectCryptoKey`: CKTPrivate = 0, CKTScript = 1, CKTPublic = 2. The lock test precedes the type switch. -/
 def Mgr.selectCryptoKey (m : Mgr) (kt : Nat) : Except MgrErr Bytes :=
   if (kt == 0 || kt == 1) && (m.locked || m.watchOnly) then .error .locked
